@@ -5,6 +5,7 @@ import (
 	"fmt"
 	"math/big"
 	"math/rand"
+	"strings"
 	"time"
 
 	"github.com/ethereum/go-ethereum/accounts/abi/bind"
@@ -183,4 +184,89 @@ func c03Legacy(ctx *Ctx, i int, drv int, rng *rand.Rand) {
 	check("after a keep-alive billed it below the minimum")
 	check("and once more")
 	ctx.Emit(Case{I: i, Kind: "legacy-client-" + driverNames[drv], Desc: map[string]interface{}{"minimum": min, "steps": log}, Monitor: mon})
+}
+
+// c03SharedConnection: one machine runs a full node and a light client and speaks to the pool over
+// a single connection for both identities (the host registers on it, the client's requests arrive
+// on it). When the client is billed below the minimum, every host it is peered with is told to
+// drop it -- the host on the client's own connection included, and the hosts on other connections.
+func c03SharedConnection(ctx *Ctx, i int, drv int, rng *rand.Rand) {
+	w := newWorld(worldCfg{Drv: drv, Price: "1", IntervalNs: 1, Settle: true, Min: strp("1000")})
+	defer w.Close()
+	w.aliasAll()
+	var mon, log []string
+	// h1 and c1 share connection X; h2 has a connection of its own
+	x := w.newConn("h1", "10.0.0.8:1")
+	if err := w.connectOn(x, "h1"); err != nil {
+		fatal("connect h1: %v", err)
+	}
+	w.applyPOp(&POp{Op: "connect", Node: "h2", Host: true, Kind: "geth"})
+	// the client's wallet: just above the minimum
+	w.applyPOp(&POp{Op: "connect", Node: "c1", Kind: "geth"})
+	w.applyPOp(&POp{Op: "addnode", Wallet: "w1", Node: "c1"})
+	extra := int64(5 + rng.Intn(40))
+	w.applyPOp(&POp{Op: "deposit", Wallet: "w1", Amount: fmt.Sprint(1000 + extra)})
+	over := func(method string, arg interface{}, res interface{}) error {
+		nonce := w.nextNonce()
+		sig := w.sign(keyFor("c1"), method, nodeIDOf("c1"), nonce, arg)
+		cctx, cancel := context.WithTimeout(context.Background(), 8*time.Second)
+		defer cancel()
+		return x.cliSide.Call(cctx, res, method, sig, nodeIDOf("c1"), nonce, arg)
+	}
+	var cresp pool.ConnectResponse
+	if err := over("vipnode_connect", pool.ConnectRequest{VipnodeVersion: "verif", NodeInfo: userAgentFor("geth", false)}, &cresp); err != nil {
+		fatal("client connect over the shared connection: %v", err)
+	}
+	peers := peerInfos([]string{nodeIDOf("h1"), nodeIDOf("h2")})
+	update := func(elapsed int64) (err error) {
+		nd, gerr := w.st.GetNode(store.NodeID(nodeIDOf("c1")))
+		if gerr != nil {
+			fatal("%v", gerr)
+		}
+		w.useRealClk = false
+		w.clockNow = time.Unix(0, nd.LastSeen.UnixNano()+elapsed)
+		var resp pool.UpdateResponse
+		return over("vipnode_update", pool.UpdateRequest{PeerInfo: peers, BlockNumber: 5}, &resp)
+	}
+	log = append(log, fmt.Sprintf("first keep-alive (tracks both hosts): %v", update(0)))
+	w.takeCalls()
+	err := update(extra + 3 + int64(rng.Intn(10))) // two peers are billed: well below the minimum now
+	log = append(log, fmt.Sprintf("keep-alive billed below the minimum: %v", err))
+	// the instructions to the hosts are sent without waiting for the reply to the client
+	asked := map[string]int{}
+	for t0 := time.Now(); time.Since(t0) < 2*time.Second && len(asked) < 2; {
+		time.Sleep(20 * time.Millisecond)
+		w.mu.Lock()
+		for _, c := range w.calls {
+			if c.Method == "disconnect" && c.Arg == nodeIDOf("c1") {
+				asked[strings.SplitN(c.Host, "#", 2)[0]]++
+			}
+		}
+		w.mu.Unlock()
+		if len(asked) < 2 {
+			asked = map[string]int{}
+		}
+	}
+	w.mu.Lock()
+	asked = map[string]int{}
+	for _, c := range w.calls {
+		if c.Method == "disconnect" && c.Arg == nodeIDOf("c1") {
+			asked[strings.SplitN(c.Host, "#", 2)[0]]++
+		}
+	}
+	w.mu.Unlock()
+	if cl := classify(err); cl.Class != "low" {
+		mon = append(mon, fmt.Sprintf("c03-shared-connection: the keep-alive that took the client below the minimum was answered with %v, not with the low-balance refusal", err))
+	} else {
+		for _, h := range []string{"h1", "h2"} {
+			if asked[h] == 0 {
+				where := "a connection of its own"
+				if h == "h1" {
+					where = "the connection the client's keep-alive arrived on"
+				}
+				mon = append(mon, fmt.Sprintf("c03-shared-connection: the client was cut off for its balance; host %s (registered on %s, peered with the client) was not told to disconnect it (instructions sent: %v)", h, where, asked))
+			}
+		}
+	}
+	ctx.Emit(Case{I: i, Kind: "shared-connection-" + driverNames[drv], Desc: map[string]interface{}{"steps": log, "disconnect_instructions": asked}, Monitor: mon})
 }
